@@ -2,6 +2,7 @@ package main
 
 import (
 	"fmt"
+	"os"
 	"strings"
 
 	"servitor/config"
@@ -10,6 +11,52 @@ import (
 	"verif/lib/uidrv"
 	"verif/lib/uimodel"
 )
+
+// runFrames drives one UI run and returns the frames whose height is wrong.
+func runFrames(w *uimodel.World, st uimodel.Start, seq string, h int, hookFail bool, each func(frame string, rows int)) (faults []string, frames int64, out *verifrt.Outcome) {
+	if hookFail {
+		os.Setenv("VDUMP_MSG", "x\ny\n\nz\n") // short: the line feeds must survive the cut to the terminal width
+		os.Setenv("VDUMP_EXIT", "3")
+	} else {
+		os.Unsetenv("VDUMP_MSG")
+		os.Unsetenv("VDUMP_EXIT")
+	}
+	w.Net.W.Install()
+	uidrv.Reset()
+	config.Parsed.Network.Context = 2
+	config.Parsed.Feeds = w.Feeds
+	config.Parsed.Media.Hook = []string{ev.VerifDir() + "/bin/vdump", "%url"}
+	out = verifrt.Run(nil, 200000, map[string]bool{"pub": true, "splicer": true, "client": true}, func() {
+		verifrt.SetExplore(false)
+		d := uidrv.New(30, h)
+		d.OnFrame = func(f string) {
+			frames++
+			_, hh := d.S.VerifSize()
+			if each != nil {
+				each(f, hh)
+			}
+			if n := strings.Count(f, "\n") + 1; n != hh && len(faults) < 3 {
+				faults = append(faults, fmt.Sprintf("frame of %d lines on a terminal of %d rows", n, hh))
+			}
+		}
+		if err := d.Command(st.Cmd, st.Arg); err != nil {
+			return
+		}
+		d.Keys(seq)
+		// a resize in the reached state redraws the frame at another height; a fixed
+		// epilogue then shows every kind of screen (command, selection, loading through
+		// :open and through opening a link, normal) after each height change
+		epilogue := ""
+		if len(seq) <= 1 { // from the start state and from every state one key away
+			epilogue = ":x\x1b1\x1b:open " + w.Starts()[0].Arg + "\r1.j"
+		}
+		d.Resize(30, h+1)
+		d.Keys(epilogue)
+		d.Resize(30, h)
+		d.Keys(epilogue)
+	})
+	return faults, frames, out
+}
 
 // framesPart: every frame the real UI emits while browsing the generated world, for every
 // terminal height 2..9 and every key sequence up to a length bound over a small alphabet
@@ -39,51 +86,37 @@ func framesPart(r *ev.Report) {
 	if r.Thorough() {
 		heights = []int{2, 3, 4, 5, 6, 7, 8, 9}
 	}
+	type variant struct {
+		seq      string
+		hookFail bool
+	}
+	var variants []variant
+	for _, seq := range seqs {
+		variants = append(variants, variant{seq, false})
+		if strings.ContainsAny(seq, "o\r") {
+			// the same keys with a viewer that prints several lines and fails: its output is
+			// quoted in the status line
+			variants = append(variants, variant{seq, true})
+		}
+	}
 	for _, h := range heights {
 		for _, st := range starts {
-			for _, seq := range seqs {
-				w.Net.W.Install()
-				uidrv.Reset()
-				config.Parsed.Network.Context = 2
-				config.Parsed.Feeds = w.Feeds
-				config.Parsed.Media.Hook = []string{ev.VerifDir() + "/bin/vdump", "%url"}
-				var faults []string
-				out := verifrt.Run(nil, 200000, map[string]bool{"pub": true, "splicer": true, "client": true}, func() {
-					verifrt.SetExplore(false)
-					d := uidrv.New(30, h)
-					d.OnFrame = func(f string) {
-						frames++
-						_, hh := d.S.VerifSize()
-						if n := strings.Count(f, "\n") + 1; n != hh && len(faults) < 3 {
-							faults = append(faults, fmt.Sprintf("frame of %d lines on a terminal of %d rows", n, hh))
-						}
-					}
-					if err := d.Command(st.Cmd, st.Arg); err != nil {
-						return
-					}
-					d.Keys(seq)
-					// a resize in the reached state redraws the frame at another height; a fixed
-					// epilogue then shows every kind of screen (command, selection, loading through
-					// :open and through opening a link, normal) after each height change
-					epilogue := ""
-					if len(seq) <= 1 { // from the start state and from every state one key away
-						epilogue = ":x\x1b1\x1b:open " + w.Starts()[0].Arg + "\r1.j"
-					}
-					d.Resize(30, h+1)
-					d.Keys(epilogue)
-					d.Resize(30, h)
-					d.Keys(epilogue)
-				})
+			for _, v := range variants {
+				seq := v.seq
+				faults, nf, out := runFrames(w, st, seq, h, v.hookFail, nil)
+				frames += nf
 				runs++
 				if out.Panic != "" || out.Deadlock {
 					continue // crashes and wedges are C07's
 				}
 				for _, f := range faults {
-					r.Violation("ui-frame:height", map[string]any{"start": st, "keys": seq, "height": h, "msg": f})
+					r.Violation("ui-frame:height", map[string]any{"ui_start": st, "keys": seq, "height": h, "hook_fails_with_output": v.hookFail, "msg": f})
 				}
 			}
 		}
 	}
+	os.Unsetenv("VDUMP_MSG")
+	os.Unsetenv("VDUMP_EXIT")
 	r.Eval(runs)
 	r.Extra["ui_frames"] = frames
 	r.Extra["ui_runs"] = runs
